@@ -1409,7 +1409,44 @@ Local Open Scope N_scope.
 Local Open Scope string_scope.
 `
 
+// c01Replay re-sends the request of a replay file (written by ./check from cases.json) to the
+// real provider and prints what happens.
+func c01Replay(path string) int {
+	b, err := os.ReadFile(path)
+	if err != nil {
+		fmt.Fprintln(os.Stderr, err)
+		return 2
+	}
+	var rp struct {
+		What string `json:"what"`
+		Spec struct {
+			Cfg     aCfg      `json:"cfg"`
+			Entry   string    `json:"entry"`
+			Clients []aClient `json:"clients"`
+			Anon    bool      `json:"anonymous_allowed"`
+		}
+		Ops []aReq
+		Obs map[string]any
+	}
+	if err := json.Unmarshal(b, &rp); err != nil || len(rp.Ops) != 1 {
+		fmt.Fprintln(os.Stderr, "not a c01 replay file:", err)
+		return 2
+	}
+	k := &c01Case{Cfg: rp.Spec.Cfg, Entry: rp.Spec.Entry, Clients: rp.Spec.Clients, Anon: rp.Spec.Anon, Req: rp.Ops[0]}
+	if err := k.run(); err != nil {
+		fmt.Fprintln(os.Stderr, err)
+		return 2
+	}
+	fmt.Println(rp.What)
+	fmt.Printf("POST %s as %s\n  request: %s\n  clients: %s\n", c01Path[k.Entry], k.Entry, k.Req.coq(), cList(k.Clients, aClient.coq))
+	fmt.Printf("  => status %d accepted=%v invalid_client=%v artifact=%v storage-write=%v jwks_uri-fetched=%v storage-calls=%v\n     %s\n",
+		k.Status, k.Accepted, k.InvalidClient, k.Artifact, k.Wrote, k.Fetched, k.Log, k.Body)
+	fmt.Printf("  recorded: %v\n", rp.Obs)
+	return 0
+}
+
 func init() {
+	replayers["c01"] = c01Replay
 	register(&Suite{Name: "c01", Run: func(ctx *RunCtx) {
 		cases := c01Catalogue(ctx)
 		if !ctx.Quick() {
